@@ -671,6 +671,9 @@ def defect_cases(rng):
           ["M", [2], {"register_name": "b"}]]
     for r in R3:
         out.append(("midmulti", mk_spec(line4, [0, 1, 2, 3], gs, r)))
+    gs = [["CZ", [0, 1], {}], ["M", [2, 3], {"register_name": "a"}], ["CZ", [0, 1], {}]]
+    for r in R3:
+        out.append(("midmulti", mk_spec(line4, [0, 1, 2, 3], gs, r)))
     # a non-collapsing measurement that is final on its qubit but not at the end of the queue
     gs = [["CZ", [0, 1], {}], ["M", [1], {"register_name": "a"}], ["CZ", [0, 2], {}], ["M", [0], {"register_name": "b"}]]
     for r in R3:
